@@ -198,6 +198,12 @@ impl MScriptFile {
         Ok(())
     }
 
+    /// Registers `var` under `name`, replacing an earlier registration: a class declared inside
+    /// a function is declared again by every activation of that function.
+    pub fn set_export(&self, name: String, var: PrimitiveFlagsPair) {
+        self.exports.borrow_mut().set(name, var);
+    }
+
     pub fn get_export(&self, name: &str) -> Option<PrimitiveFlagsPair> {
         let exports = self.exports.borrow();
         exports.get(name)
